@@ -133,8 +133,11 @@ class Lab:
             return r
 
         def measured_result(f, args, kwargs):
-            self.calls.append(("scan_file", list(args), dict(kwargs)))
-            toks = next((a for a in list(args) + list(kwargs.values()) if is_token_list(a)), None)
+            everything_ = list(args) + list(kwargs.values()) + (list(f.self_obj.fields.values()) if isinstance(getattr(f, "self_obj", None), Sym) else [])
+            toks = next((a for a in everything_ if is_token_list(a)), None)
+            lang_ = next((a for a in everything_ if is_language(a)), None)
+            # recorded in a normal form (token list, language), wherever the step takes them from (arguments, keywords, its object)
+            self.calls.append(("scan_file", [toks, lang_], {}))
             if toks is not None:
                 self.analysed.append(self.vfs.abs(path_of_tokens(toks)))
             if not self.deep:
